@@ -56,9 +56,37 @@ func Yield(label string) {
 		(*f)(label)
 	}
 }
+
+var lockFn atomic.Pointer[func(m any, write, acquire bool)]
+
+// SetLock installs the scheduler's mutex model (nil removes it).
+func SetLock(f func(m any, write, acquire bool)) {
+	if f == nil {
+		lockFn.Store(nil)
+		return
+	}
+	lockFn.Store(&f)
+}
+
+// BeforeLock is called before m.Lock()/m.RLock() in instrumented files: the
+// scheduler parks the thread until its model of m is free, so that the real lock
+// never blocks while another controlled thread is parked holding it.
+func BeforeLock(m any, write bool) {
+	if f := lockFn.Load(); f != nil {
+		(*f)(m, write, true)
+	}
+}
+
+// AfterUnlock is called after m.Unlock()/m.RUnlock().
+func AfterUnlock(m any, write bool) {
+	if f := lockFn.Load(); f != nil {
+		(*f)(m, write, false)
+	}
+}
 `
 
 var targets []string
+var locks int
 var count int
 var curFn string
 
@@ -150,9 +178,60 @@ func headerTouches(st ast.Stmt) (before bool, perIter bool) {
 	return touches(st), false
 }
 
+// lockCall recognises X.Lock() / X.RLock() / X.Unlock() / X.RUnlock() with no arguments.
+func lockCall(e ast.Expr) (recv ast.Expr, write, acquire, ok bool) {
+	c, isCall := e.(*ast.CallExpr)
+	if !isCall || len(c.Args) != 0 {
+		return
+	}
+	sel, isSel := c.Fun.(*ast.SelectorExpr)
+	if !isSel {
+		return
+	}
+	switch sel.Sel.Name {
+	case "Lock":
+		return sel.X, true, true, true
+	case "RLock":
+		return sel.X, false, true, true
+	case "Unlock":
+		return sel.X, true, false, true
+	case "RUnlock":
+		return sel.X, false, false, true
+	}
+	return
+}
+
+func lockHook(name string, recv ast.Expr, write bool) ast.Stmt {
+	w := "false"
+	if write {
+		w = "true"
+	}
+	return &ast.ExprStmt{X: &ast.CallExpr{Fun: &ast.SelectorExpr{X: ast.NewIdent("verifhook"), Sel: ast.NewIdent(name)},
+		Args: []ast.Expr{&ast.UnaryExpr{Op: token.AND, X: recv}, ast.NewIdent(w)}}}
+}
+
 func rewriteList(list []ast.Stmt) []ast.Stmt {
 	var out []ast.Stmt
 	for _, st := range list {
+		if es, ok := st.(*ast.ExprStmt); ok {
+			if recv, write, acquire, ok := lockCall(es.X); ok && rootOf(recv) != "" {
+				locks++
+				if acquire {
+					out = append(out, lockHook("BeforeLock", recv, write), st)
+				} else {
+					out = append(out, st, lockHook("AfterUnlock", recv, write))
+				}
+				continue
+			}
+		}
+		if ds, ok := st.(*ast.DeferStmt); ok {
+			if recv, write, acquire, ok := lockCall(ds.Call); ok && !acquire && rootOf(recv) != "" {
+				locks++
+				body := &ast.BlockStmt{List: []ast.Stmt{&ast.ExprStmt{X: ds.Call}, lockHook("AfterUnlock", recv, write)}}
+				out = append(out, &ast.DeferStmt{Call: &ast.CallExpr{Fun: &ast.FuncLit{Type: &ast.FuncType{Params: &ast.FieldList{}}, Body: body}}})
+				continue
+			}
+		}
 		before, perIter := headerTouches(st)
 		if before {
 			out = append(out, yield())
@@ -285,7 +364,7 @@ func main() {
 			os.Exit(2)
 		}
 		content[t.File] = res
-		fmt.Printf("%s: %d yields\n", t.File, n)
+		fmt.Printf("%s: %d yields, %d lock hooks (cumulative)\n", t.File, n, locks)
 	}
 	replace := map[string]string{}
 	for rel, b := range content {
